@@ -4,7 +4,7 @@ This file implements additional functions that are visible in the module.
 
 import torch as tn
 import torch.nn.functional as tnf
-from torchtt._decomposition import mat_to_tt, to_tt, lr_orthogonal, round_tt, rl_orthogonal, QR, SVD, rank_chop
+from torchtt._decomposition import mat_to_tt, to_tt, lr_orthogonal, round_tt, rl_orthogonal, QR, SVD, rank_chop, snorm
 from torchtt._division import amen_divide
 import numpy as np
 import math
@@ -781,10 +781,10 @@ def permute(input, dims, eps=1e-12):
                         core, [core.shape[0]*core.shape[1]*core.shape[2], -1]))
                     if S.is_cuda:
                         r_now = min(
-                            [rank_chop(S.cpu().numpy(), tn.linalg.norm(S).cpu().numpy()*eps)])
+                            [rank_chop(S.cpu().numpy(), snorm(S).cpu().numpy()*eps)])
                     else:
                         r_now = min(
-                            [rank_chop(S.numpy(), tn.linalg.norm(S).numpy()*eps)])
+                            [rank_chop(S.numpy(), snorm(S).numpy()*eps)])
 
                     US = U[:, :r_now]@tn.diag(S[:r_now])
                     V = V[:r_now, :]
@@ -813,10 +813,10 @@ def permute(input, dims, eps=1e-12):
                         core, [core.shape[0]*core.shape[1], -1]))
                     if S.is_cuda:
                         r_now = min(
-                            [rank_chop(S.cpu().numpy(), tn.linalg.norm(S).cpu().numpy()*eps)])
+                            [rank_chop(S.cpu().numpy(), snorm(S).cpu().numpy()*eps)])
                     else:
                         r_now = min(
-                            [rank_chop(S.numpy(), tn.linalg.norm(S).numpy()*eps)])
+                            [rank_chop(S.numpy(), snorm(S).numpy()*eps)])
 
                     US = U[:, :r_now]@tn.diag(S[:r_now])
                     V = V[:r_now, :]
